@@ -62,6 +62,8 @@ type wscript struct {
 	emsg       string
 	ekind      int  // how the handler builds the error it returns: 0 status error, 1 status error wrapped with %w, 2 plain Go error
 	mutate     bool // the sender scribbles over a message right after sending it
+	prevHop    bool // the caller is itself a handler: its context carries the incoming metadata of the previous hop
+	outMD      bool // the caller sends outgoing metadata
 	nilOnDone  bool // cancel / deadline: the handler returns nil once its context has ended
 	thirdParty bool // unary + cancel, over the wrapper: a third party cancels at any moment (the reference keeps the ordered cancel)
 	mdReuse    bool // the handler keeps changing the metadata map it handed to SetHeader / SendHeader / SetTrailer
@@ -89,11 +91,11 @@ func (s wscript) String() string {
 		}
 	}
 	term := []string{"return-ok", fmt.Sprintf("return(%s,%q,%s)", s.code, s.emsg, []string{"status", "wrapped-status", "plain-error"}[s.ekind]), "client-cancel", "deadline"}[s.term]
-	return fmt.Sprintf("%s [%s] %s mutate=%v late-handler=%v md-reuse=%v pre-done=%v late-cancel=%v third-party=%v nil-on-done=%v", []string{"unary", "sstream", "cstream", "bidi"}[s.shape], strings.Join(p, " "), term, s.mutate, s.late, s.mdReuse, s.preDone, s.lateCancel, s.thirdParty, s.nilOnDone)
+	return fmt.Sprintf("%s [%s] %s mutate=%v late-handler=%v md-reuse=%v pre-done=%v late-cancel=%v third-party=%v nil-on-done=%v prev-hop=%v out-md=%v", []string{"unary", "sstream", "cstream", "bidi"}[s.shape], strings.Join(p, " "), term, s.mutate, s.late, s.mdReuse, s.preDone, s.lateCancel, s.thirdParty, s.nilOnDone, s.prevHop, s.outMD)
 }
 
 func genWrapScript(t *Tape) wscript {
-	s := wscript{shape: t.Choose(4), term: t.Choose(4), mutate: t.Flag(1, 3), late: t.Flag(1, 3), mdReuse: t.Flag(1, 3)}
+	s := wscript{shape: t.Choose(4), term: t.Choose(4), mutate: t.Flag(1, 3), late: t.Flag(1, 3), mdReuse: t.Flag(1, 3), prevHop: t.Flag(1, 4), outMD: t.Flag(1, 4)}
 	s.code = []codes.Code{codes.NotFound, codes.InvalidArgument, codes.Internal, codes.Unavailable, codes.PermissionDenied, codes.Aborted}[t.Choose(6)]
 	s.emsg = []string{"boom", "", "not here"}[t.Choose(3)]
 	s.ekind = []int{0, 0, 1, 2}[t.Choose(4)]
@@ -237,6 +239,11 @@ type srvStream interface {
 
 // run executes the server's half of the script. recv/send are nil where the shape does not allow them.
 func (sv *scriptServer) run(st srvStream, ctx context.Context, recv func() (string, error), send func(string) error) error {
+	if sv.s.prevHop || sv.s.outMD {
+		// what the handler finds as its incoming metadata: what the caller sent as outgoing, nothing else
+		md, _ := metadata.FromIncomingContext(ctx)
+		sv.tr.server = append(sv.tr.server, "incoming "+userMD(md))
+	}
 	for _, r := range sv.s.rounds {
 		sv.yield("srv")
 		switch r.kind {
@@ -379,7 +386,14 @@ func (sv *scriptServer) BidiStream(st grpc.BidiStreamingServer[testproto.BidiStr
 
 func runWrapClient(s wscript, client testproto.TestApiClient, yield func(string), quiesce func(), tr *transcript, setCancel func(context.CancelFunc), release chan struct{}) {
 	defer close(release)
-	ctx, cancel := context.WithCancel(context.Background())
+	base := context.Background()
+	if s.prevHop {
+		base = metadata.NewIncomingContext(base, metadata.Pairs("x-prev-hop", "secret"))
+	}
+	if s.outMD {
+		base = metadata.AppendToOutgoingContext(base, "x-from-client", "c1")
+	}
+	ctx, cancel := context.WithCancel(base)
 	defer cancel()
 	if s.term == tDeadline {
 		var c2 context.CancelFunc
